@@ -1279,6 +1279,170 @@ Section Flat.
     - rewrite (HF0 stk2 f' Hd2 (Hfr 0%nat)) by lia. reflexivity.
   Qed.
 
+  Theorem ifeq_calls x more :
+    FlatCall.ifeq_calls_ok pfnames lib x more = true -> o_parserfns opts = true -> o_tfn opts = [] -> o_pfn opts = [] ->
+    exists F, forall stk ea fuel, (length stk < 98)%nat -> forallb (fresh_items stk) more = true -> (F <= fuel)%nat ->
+      expand_T fuel stk ea ((ifeq_head ++ x) :: more) = Some (FlatCall.ifeq_calls_result lib x more).
+  Proof.
+    intros Hok Hpf Htfn Hpfn. unfold FlatCall.ifeq_calls_ok in Hok. apply andb_true_iff in Hok. destruct Hok as [Hok Hm].
+    apply andb_true_iff in Hok. destruct Hok as [Hc Hn0].
+    destruct (expand_items_at (nth 1 more []) (nth_flat more 1 Hm) Htfn Hpfn) as [F1 HF1].
+    destruct (expand_items_at (nth 2 more []) (nth_flat more 2 Hm) Htfn Hpfn) as [F2 HF2].
+    exists (length x + length (nth 0 more []) + F1 + F2 + 20)%nat.
+    intros stk ea fuel Hdepth Hfresh Hf. destruct fuel as [|f]; [lia|]. destruct f as [|f']; [lia|].
+    rewrite expand_T_S. replace (Nat.leb 100 (length stk)) with false by (symmetry; apply Nat.leb_gt; lia).
+    assert (Hp : plain (ifeq_head ++ x) = true) by (rewrite plain_app, Hc; reflexivity).
+    rewrite (expand_recurse_plain pfnames lib opts _ Hp) by (rewrite app_length; cbn; lia).
+    cbv beta iota zeta. rewrite strip_ifeq_head.
+    assert (Hcodes : codes (ifeq_head ++ rstrip_i x) = 35 :: 105 :: 102 :: 101 :: 113 :: 58 :: codes (rstrip_i x)) by reflexivity.
+    rewrite Hcodes. cbn [index_of].
+    replace (35 =? 58) with false by reflexivity. replace (105 =? 58) with false by reflexivity.
+    replace (102 =? 58) with false by reflexivity. replace (101 =? 58) with false by reflexivity.
+    replace (113 =? 58) with false by reflexivity. replace (58 =? 58) with true by reflexivity.
+    cbv beta iota. cbn [firstn].
+    assert (Hcanon : Expand.canon_pf pfnames [35; 105; 102; 101; 113] = [35; 105; 102; 101; 113]).
+    { unfold Expand.canon_pf. cbn [collapse_ws_us is_space N.eqb orb]. destruct (in_names _ pfnames); reflexivity. }
+    rewrite Hcanon.
+    assert (Hcl : Expand.classify_pf pfnames [35; 105; 102; 101; 113] = PfIfeq) by reflexivity. rewrite Hcl.
+    cbn [skipn FlatCall.ifeq_head chars s_ifeq map app].
+    rewrite expand_pf_S. rewrite Hpf. cbn [negb].
+    set (c0 := lstrip_i (rstrip_i x)).
+    assert (Hc0 : plain c0 = true) by (apply plain_lstrip, plain_rstrip; exact Hc).
+    assert (Lc0 : (length c0 <= length x)%nat).
+    { unfold c0, rstrip_i. assert (Ll : forall y, (length (lstrip_i y) <= length y)%nat).
+      { induction y as [|z y IHy]; [cbn; lia|]. cbn [lstrip_i]. destruct (sp_item z); cbn; lia. }
+      etransitivity; [apply Ll|]. rewrite rev_length. etransitivity; [apply Ll|]. rewrite rev_length. lia. }
+    cbn [nth].
+    rewrite (expand_recurse_plain pfnames lib opts c0 Hc0) by lia.
+    rewrite (expand_recurse_plain pfnames lib opts _ Hn0) by lia.
+    cbn [option_map].
+    assert (Hstrip : strip_i c0 = strip_i x).
+    { unfold c0, strip_i. rewrite lstrip_idem, lstrip_rstrip_comm, rstrip_idem. reflexivity. }
+    rewrite Hstrip.
+    assert (Hsx : plain (strip_i x) = true) by (apply plain_strip; exact Hc).
+    assert (Hsy : plain (strip_i (nth 0 more [])) = true) by (apply plain_strip; exact Hn0).
+    unfold FlatCall.ifeq_calls_result.
+    assert (Hpl : forall e, plain e = true -> forallb is_ch e = true) by (intros e He; exact He).
+    rewrite (Hpl _ Hsx), (Hpl _ Hsy), andb_true_r, andb_true_r.
+    set (stk2 := ((stk ++ [FFn [35; 105; 102; 101; 113]]) ++ [FFn [35; 105; 102; 101; 113]])).
+    assert (Hd2 : (length stk2 < 100)%nat) by (unfold stk2; rewrite !app_length; cbn; lia).
+    assert (Hfr : forall n, fresh_items stk2 (nth n more []) = true).
+    { intros n. unfold stk2. rewrite !fresh_items_fn. apply nth_fresh. exact Hfresh. }
+    destruct (mw_equal (codes (strip_i x)) (codes (strip_i (nth 0 more [])))) eqn:Eq.
+    - rewrite (HF1 stk2 f' Hd2 (Hfr 1%nat)) by lia. reflexivity.
+    - assert (Hne : str_eqb (codes (strip_i x)) (codes (strip_i (nth 0 more []))) = false).
+      { unfold mw_equal in Eq. apply orb_false_iff in Eq. exact (proj1 Eq). }
+      rewrite Hne.
+      rewrite (HF2 stk2 f' Hd2 (Hfr 2%nat)) by lia. reflexivity.
+  Qed.
+
+  (** #switch with calls in the values of its cases *)
+  Lemma expand_items_all (vs : list enc) :
+    forallb (forallb flat_item) vs = true -> o_tfn opts = [] -> o_pfn opts = [] ->
+    exists F, forall v, In v vs -> forall stk fuel, (length stk < 100)%nat -> fresh_items stk v = true -> (F <= fuel)%nat ->
+      expand_recurse fuel stk true v = Some (page_result v).
+  Proof.
+    intros Hvs Htfn Hpfn. induction vs as [|a vs IH].
+    - exists 0%nat. intros v [].
+    - cbn in Hvs. apply andb_true_iff in Hvs. destruct Hvs as [Ha Hr].
+      destruct (IH Hr) as [F HF]. destruct (expand_items_at a Ha Htfn Hpfn) as [Fa HFa].
+      exists (Fa + F)%nat. intros v [Hv|Hv] stk fuel Hd Hfr Hf.
+      + subst v. apply HFa; [exact Hd | exact Hfr | lia].
+      + apply (HF v Hv); [exact Hd | exact Hfr | lia].
+  Qed.
+
+  Lemma switch_loop_calls stk1 val (vs : list enc) F :
+    (length stk1 < 100)%nat ->
+    (forall v, In v vs -> forall fuel, (F <= fuel)%nat -> expand_recurse fuel stk1 true v = Some (page_result v)) ->
+    forall cases d f,
+    forallb (FlatCall.case_calls_ok pfnames lib) cases = true ->
+    (forall kv, In kv cases -> In (snd kv) vs) -> (match d with Some x => In x vs | None => True end) ->
+    (cases_size cases + F + 2 < f)%nat ->
+    switch_loop f stk1 val (map mkcase cases) false false d None = Some (FlatCall.switch_calls_result lib val cases d).
+  Proof.
+    intros Hd1 HF.
+    induction cases as [|[k v] cases IH]; intros d f Hok Hin Hd Hf.
+    - destruct f as [|f]; [lia|]. rewrite switch_loop_S. cbn [map].
+      destruct d as [x|]; [|reflexivity].
+      cbn [FlatCall.switch_calls_result]. rewrite (HF x Hd) by (cbn in Hf; lia). reflexivity.
+    - destruct f as [|f]; [lia|]. rewrite switch_loop_S. cbn [map].
+      cbn in Hok. apply andb_true_iff in Hok. destruct Hok as [Hkv Hrest].
+      unfold FlatCall.case_calls_ok in Hkv. cbn [fst snd] in Hkv.
+      apply andb_true_iff in Hkv. destruct Hkv as [Hkv Hv]. apply andb_true_iff in Hkv. destruct Hkv as [Hk Hne].
+      unfold FlatCall.mkcase at 1. cbn [fst snd].
+      rewrite (split_switch_case k v Hne).
+      cbn [negb andb]. cbv beta iota zeta.
+      unfold cases_size in Hf. cbn [fold_right fst snd] in Hf. fold (cases_size cases) in Hf.
+      rewrite (expand_recurse_plain pfnames lib opts k Hk) by lia.
+      cbn [option_map]. rewrite orb_false_r.
+      cbn [FlatCall.switch_calls_result].
+      assert (Hvin : In v vs) by (apply (Hin (k, v)); left; reflexivity).
+      assert (Hin' : forall kv, In kv cases -> In (snd kv) vs) by (intros kv Hkv'; apply Hin; right; exact Hkv').
+      destruct (mw_equal (codes (strip_i k)) (codes val)) eqn:Em.
+      + rewrite (HF v Hvin) by lia. reflexivity.
+      + destruct (str_eqb (lower (codes (strip_i k))) s_default) eqn:Ed.
+        * apply IH; [exact Hrest | exact Hin' | exact Hvin | lia].
+        * apply IH; [exact Hrest | exact Hin' | exact Hd | lia].
+  Qed.
+
+  Theorem switch_calls x cases :
+    plain x = true -> forallb (FlatCall.case_calls_ok pfnames lib) cases = true ->
+    o_parserfns opts = true -> o_tfn opts = [] -> o_pfn opts = [] ->
+    exists F, forall stk ea fuel, (length stk < 98)%nat -> forallb (fun kv => fresh_items stk (snd kv)) cases = true ->
+      (F <= fuel)%nat ->
+      expand_T fuel stk ea ((switch_head ++ x) :: map mkcase cases)
+      = Some (add_newline (FlatCall.switch_calls_result lib (strip_i x) cases None)).
+  Proof.
+    intros Hc Hm Hpf Htfn Hpfn.
+    assert (Hvs : forallb (forallb flat_item) (map snd cases) = true).
+    { clear -Hm. induction cases as [|[k v] cases IH]; [reflexivity|]. cbn in Hm. apply andb_true_iff in Hm.
+      destruct Hm as [Hkv Hr]. unfold FlatCall.case_calls_ok in Hkv. apply andb_true_iff in Hkv. cbn [snd] in Hkv.
+      cbn [map snd forallb]. rewrite (proj2 Hkv), (IH Hr). reflexivity. }
+    destruct (expand_items_all (map snd cases) Hvs Htfn Hpfn) as [F0 HF0].
+    exists (length x + cases_size cases + F0 + 30)%nat.
+    intros stk ea fuel Hdepth Hfresh Hf. destruct fuel as [|f]; [lia|]. destruct f as [|f']; [lia|].
+    rewrite expand_T_S. replace (Nat.leb 100 (length stk)) with false by (symmetry; apply Nat.leb_gt; lia).
+    assert (Hp : plain (switch_head ++ x) = true) by (rewrite plain_app, Hc; reflexivity).
+    rewrite (expand_recurse_plain pfnames lib opts _ Hp) by (rewrite app_length; cbn; lia).
+    cbv beta iota zeta. rewrite strip_switch_head.
+    assert (Hcodes : codes (switch_head ++ rstrip_i x)
+                     = 35 :: 115 :: 119 :: 105 :: 116 :: 99 :: 104 :: 58 :: codes (rstrip_i x)) by reflexivity.
+    rewrite Hcodes. cbn [index_of].
+    replace (35 =? 58) with false by reflexivity. replace (115 =? 58) with false by reflexivity.
+    replace (119 =? 58) with false by reflexivity. replace (105 =? 58) with false by reflexivity.
+    replace (116 =? 58) with false by reflexivity. replace (99 =? 58) with false by reflexivity.
+    replace (104 =? 58) with false by reflexivity. replace (58 =? 58) with true by reflexivity.
+    cbv beta iota. cbn [firstn].
+    assert (Hcanon : Expand.canon_pf pfnames [35; 115; 119; 105; 116; 99; 104] = [35; 115; 119; 105; 116; 99; 104]).
+    { unfold Expand.canon_pf. cbn [collapse_ws_us is_space N.eqb orb]. destruct (in_names _ pfnames); reflexivity. }
+    rewrite Hcanon.
+    assert (Hcl : Expand.classify_pf pfnames [35; 115; 119; 105; 116; 99; 104] = PfSwitch) by reflexivity. rewrite Hcl.
+    cbn [skipn FlatCall.switch_head chars s_switch map app].
+    rewrite expand_pf_S. rewrite Hpf. cbn [negb].
+    set (c0 := lstrip_i (rstrip_i x)).
+    assert (Hc0 : plain c0 = true) by (apply plain_lstrip, plain_rstrip; exact Hc).
+    assert (Lc0 : (length c0 <= length x)%nat).
+    { unfold c0, rstrip_i. assert (Ll : forall y, (length (lstrip_i y) <= length y)%nat).
+      { induction y as [|z y IHy]; [cbn; lia|]. cbn [lstrip_i]. destruct (sp_item z); cbn; lia. }
+      etransitivity; [apply Ll|]. rewrite rev_length. etransitivity; [apply Ll|]. rewrite rev_length. lia. }
+    cbv beta iota zeta.
+    rewrite (expand_recurse_plain pfnames lib opts c0 Hc0) by lia.
+    cbn [option_map].
+    assert (Hstrip : strip_i c0 = strip_i x).
+    { unfold c0, strip_i. rewrite lstrip_idem, lstrip_rstrip_comm, rstrip_idem. reflexivity. }
+    rewrite Hstrip.
+    set (stk2 := ((stk ++ [FFn [35; 115; 119; 105; 116; 99; 104]]) ++ [FFn [35; 115; 119; 105; 116; 99; 104]])).
+    assert (Hd2 : (length stk2 < 100)%nat) by (unfold stk2; rewrite !app_length; cbn; lia).
+    assert (HF : forall v, In v (map snd cases) -> forall fuel, (F0 <= fuel)%nat ->
+                 expand_recurse fuel stk2 true v = Some (page_result v)).
+    { intros v Hv fuel Hfu. apply (HF0 v Hv); [exact Hd2 | | exact Hfu].
+      unfold stk2. rewrite !fresh_items_fn. apply in_map_iff in Hv. destruct Hv as [kv [Hkv Hin]]. subst v.
+      rewrite forallb_forall in Hfresh. exact (Hfresh kv Hin). }
+    rewrite (switch_loop_calls stk2 (strip_i x) (map snd cases) F0 Hd2 HF cases None f' Hm
+               (fun kv Hkv => in_map snd cases kv Hkv) I) by lia.
+    reflexivity.
+  Qed.
+
   Lemma values_plain_nested outer args : forallb (nested_arg_ok outer) args = true ->
     forall num ht, values_plain ht = true -> values_plain (bind_nested args num ht) = true.
   Proof.
